@@ -285,6 +285,22 @@ func CheckC12(h *History, blk *BlockRecord) []Violation {
 		locks = map[string][]lockRec{}
 		h.Ext["locks"] = locks
 	}
+	if h.Prev == nil {
+		// what keyed accounts (the pools' creator above all) hold of oracle-pool shares when the history starts was
+		// committed during the setup, i.e. not before the genesis time: locked at least until genesis + 1h
+		for _, p := range s.Pools {
+			if !p.PoolParams.UseOracle {
+				continue
+			}
+			d := ammtypes.GetPoolShareDenom(p.PoolId)
+			for _, a := range h.W.AllKeyed() {
+				if have := s.CommittedOf(a.Addr.String(), d); have.IsPositive() {
+					key := a.Addr.String() + "|" + d
+					locks[key] = append(locks[key], lockRec{Amount: have, Unlock: GenesisTime.Unix() + 3600})
+				}
+			}
+		}
+	}
 	if h.Prev != nil {
 		now := s.Time.Unix()
 		for _, p := range s.Pools {
